@@ -2599,8 +2599,10 @@ def concatenate(arrays: Sequence[Array], axis: int = 0) -> Array:
     def shape_except_axis(ary: Array) -> ShapeType:
         return ary.shape[:axis] + ary.shape[axis+1:]
 
+    from pytato.utils import are_shapes_equal
     for array in arrays[1:]:
-        if shape_except_axis(array) != shape_except_axis(arrays[0]):
+        if not are_shapes_equal(shape_except_axis(array),
+                                shape_except_axis(arrays[0])):
             raise ValueError("arrays must have the same shape except along"
                     f" dimension #{axis}.")
 
